@@ -9,7 +9,8 @@ def wave(mid):
     if k <= 4: return 2 if p in first_ten else 3
     if k <= 6: return 4
     if k <= 8: return 5
-    return 6
+    if k <= 10: return 6
+    return 7
 cnt = {}
 for d in sorted(glob.glob(os.path.join(V, "seeded", "C*-*"))):
     mid = os.path.basename(d)
